@@ -327,7 +327,7 @@ def do_check(prop, pid, tier, seed, a, scratch, t0):
     if tier == "thorough" and not errors and not vio_lines and not os.environ.get("PYVC_REPO"):
         selftest = selftest_phase(pid, functions, known, scratch, timeout_ms)
         for mid, verdict in selftest["results"]:
-            if verdict in ("MISSED", "FALSE-ALARM"):
+            if verdict in ("MISSED", "FALSE-ALARM", "PATTERN-NOT-FOUND"):  # (a pattern that no longer applies means the self-test entry is stale)
                 errors.append("self-test: mutant %s of this cone: %s" % (mid, verdict))
 
     # ---- evidence
